@@ -48,6 +48,8 @@ TARGETS = {
     "17c42": dict(hdr=0x72, gran=2, unit=("data", 2, "le", 0xFFFF), res="res", dup=None, limit=0xFFFF, segs=["code"]),
     "320c25": dict(hdr=0x75, gran=2, unit=("word", 2, "le", 0xFFFF), res="bss", dup=None, limit=0xFFFF, segs=["code"]),
     "16c84": dict(hdr=0x70, gran=2, unit=("data", 2, "le", 0x3FFF), res="res", dup=None, limit=0x3FF, segs=["code"]),
+    # 16-bit code words written high byte first; DB packs two bytes into one word (the first one into the upper half)
+    "kcpsm": dict(hdr=0x6B, gran=2, unit=("dw", 2, "be", 0xFFFF), res="ds", dup=None, limit=0xFF, segs=["code"]),
     "320c30": dict(hdr=0x76, gran=4, unit=("word", 4, "le", 0xFFFFFFFF), res="bss", dup=None, limit=0xFFFFFF, segs=["code"]),
 }
 SEGNUM = {"code": 1, "data": 2, "idata": 3, "xdata": 4}
@@ -101,6 +103,13 @@ def intel_elems(arg):
 def apply_intel(m, op, arg):
     """DN (two nibbles per byte, low nibble first, the last byte of a statement padded) and the reserving forms of DB/DW/DN"""
     el = intel_elems(arg)
+    if m.cpu == "kcpsm":
+        if all(e is None for e in el):
+            m.reserve({"db": (len(el) + 1) // 2, "dw": len(el)}[op])
+            return
+        assert op == "db" and None not in el
+        m.emit(el + [0] * (len(el) & 1))
+        return
     if all(e is None for e in el):
         m.reserve({"db": len(el), "dw": 2 * len(el), "dn": (len(el) + 1) // 2}[op])
         return
@@ -108,6 +117,12 @@ def apply_intel(m, op, arg):
     if len(el) & 1:
         el = el + [0]
     m.emit([el[i] | (el[i + 1] << 4) for i in range(0, len(el), 2)])
+
+
+def apply_moto_ds(m, t, ws, cnt):
+    if t.get("pad") and m.pc() & 1:
+        m.reserve(1)  # the automatic pad byte in front of a reservation is reserved too, not written
+    m.reserve(cnt * ws if cnt else (-m.pc()) % ws)
 
 
 def gen_program(rng, big=False):
@@ -237,6 +252,13 @@ def gen_program(rng, big=False):
             r = min(r, room)
             if r <= 0:
                 continue
+            if m.cpu in ("68000", "68000p") and rng.chance(0.4) and room > 64:
+                # word / long reservations: padded like word data; a count of 0 is the idiom for aligning the counter
+                op, ws = rng.choice([("ds.w", 2), ("ds.l", 4)])
+                cnt = rng.choice([0, 0, 1, 2, 3])
+                L.append("\t%s %d" % (op, cnt))
+                apply_moto_ds(m, t, ws, cnt)
+                continue
             L.append("\t%s %d" % (t["res"], r))
             m.reserve(r)
             if rng.chance(0.3) and room - r > 4:  # back-to-back reservations (empty-record elision)
@@ -314,6 +336,28 @@ def gen_program(rng, big=False):
                     L.append("\tbinclude \"blob.bin\"")
                 m.emit(list(BLOB[off:off + ln]))
                 total += ln
+        elif k == 12 and m.cpu == "kcpsm" and limit() - m.pc() > 20:
+            op = rng.choice(["db", "db", "db", "dw"])
+            if op == "db" and rng.chance(0.6):
+                items = []
+                for _ in range(rng.randint(1, 4)):
+                    if rng.chance(0.3):
+                        items.append("%d dup (%s)" % (rng.randint(2, 3), ",".join(str(rng.below(256)) for _ in range(rng.randint(1, 3)))))
+                    else:
+                        items.append(str(rng.below(256)))
+            else:
+                items = ["?"] * rng.below(4)
+                for _ in range(rng.randint(0 if items else 1, 2)):
+                    items.append("%d dup (%s)" % (rng.randint(2, 4), ",".join(["?"] * rng.choice([1, 1, 2, 3]))))
+                    items += ["?"] * rng.below(3)
+            arg = ",".join(items)
+            L.append("\t%s %s" % (op, arg))
+            apply_intel(m, op, arg)
+            if rng.chance(0.7):
+                v = rng.below(65536)
+                L.append("\tdw %d" % v)
+                m.emit(enc(v, 2, "be"))
+                total += 2
         elif k == 12 and m.cpu in ("z80", "8051") and limit() - m.pc() > 40:
             # Intel-style reservations written with ? and DUP, and nibble data: several elements share one target byte
             op = rng.choice(["dn", "dn", "db", "dw"]) if m.cpu == "z80" else rng.choice(["db", "dw"])
@@ -437,7 +481,7 @@ def wrap(lines, seed):
             block = lines[i:j]
             kind = rng.choice(WRAP_KINDS)
             # ALIGN and the automatic padding of word data work on the phased address
-            has_ctl = any(b.split()[0] in ("org", "segment", "align", "dc.w", "dc.l") for b in block)
+            has_ctl = any(b.split()[0] in ("org", "segment", "align", "dc.w", "dc.l", "ds.w", "ds.l") for b in block)
             if kind == "phase" and has_ctl:
                 kind = "if1"
             k += 1
@@ -612,15 +656,17 @@ def rebuild_model(lines):
         if arg.startswith('"') and op in (t.get("byte"), "fcc"):
             m.emit([ord(c) for c in arg[1:-1]])
             continue
-        if op == t["res"]:
+        if op in ("ds.w", "ds.l"):
+            apply_moto_ds(m, t, 2 if op == "ds.w" else 4, int(arg))
+        elif op == t["res"]:
             m.reserve(int(arg))
+        elif op == "dn" or (op in ("db", "dw") and "?" in arg) or (m.cpu == "kcpsm" and op == "db"):
+            apply_intel(m, op, arg)
         elif "unit" in t and op == t["unit"][0]:
             bs = []
             for v in arg.split(","):
                 bs += enc(int(v), t["unit"][1], t["unit"][2])
             m.emit(bs)
-        elif op == "dn" or (op in ("db", "dw") and "?" in arg):
-            apply_intel(m, op, arg)
         elif op == t.get("byte"):
             if " dup " in arg:
                 cnt, _, rest = arg.partition(" dup ")
